@@ -239,9 +239,9 @@ class ProviderMdibMethods:
             if state.ContextAssociation != pm_types.ContextAssociation.DISASSOCIATED \
                     or state.UnbindingMdibVersion is None:
                 state.ContextAssociation = pm_types.ContextAssociation.DISASSOCIATED
-                if state.UnbindingMdibVersion is None:
-                    state.UnbindingMdibVersion = unbinding_mdib_version
-                    state.BindingEndTime = time.time()
+                # always the given version: a state that was associated again keeps no older unbinding data
+                state.UnbindingMdibVersion = unbinding_mdib_version
+                state.BindingEndTime = time.time()
                 disassociated_state_handles.append(state.Handle)
         return disassociated_state_handles
 
